@@ -116,7 +116,7 @@ impl InstructionIR {
                     Self::generate_control_qasm_strings(controls);
 
                 qasm_instructions.push(QasmInstruction::GateDeclaration(format!(
-                    "{} h q[{}] // {} {} {}",
+                    "{} h q[{}]; // {} {} {}",
                     ctrl_qasm_str, index, "Hadamard gate on qubit", index, ctrl_comment_str
                 )));
             }
@@ -126,7 +126,7 @@ impl InstructionIR {
                     Self::generate_control_qasm_strings(controls);
                 
                 qasm_instructions.push(QasmInstruction::GateDeclaration(format!(
-                    "{} x q[{}] // {} {} {}",
+                    "{} x q[{}]; // {} {} {}",
                     ctrl_qasm_str, index, "Pauli-X gate on qubit", index, ctrl_comment_str
                 )));
             },
@@ -136,7 +136,7 @@ impl InstructionIR {
                     Self::generate_control_qasm_strings(controls);
                 
                 qasm_instructions.push(QasmInstruction::GateDeclaration(format!(
-                    "{} y q[{}] // {} {} {}",
+                    "{} y q[{}]; // {} {} {}",
                     ctrl_qasm_str, index, "Pauli-Y gate on qubit", index, ctrl_comment_str
                 )));
             },
@@ -146,7 +146,7 @@ impl InstructionIR {
                     Self::generate_control_qasm_strings(controls);
                 
                 qasm_instructions.push(QasmInstruction::GateDeclaration(format!(
-                    "{} z q[{}] // {} {} {}",
+                    "{} z q[{}]; // {} {} {}",
                     ctrl_qasm_str, index, "Pauli-Z gate on qubit", index, ctrl_comment_str
                 )));
             },
@@ -156,7 +156,7 @@ impl InstructionIR {
                     Self::generate_control_qasm_strings(controls);
                 
                 qasm_instructions.push(QasmInstruction::GateDeclaration(format!(
-                    "{} s q[{}] // {} {} {}",
+                    "{} s q[{}]; // {} {} {}",
                     ctrl_qasm_str, index, "Phase S gate on qubit", index, ctrl_comment_str
                 )));
             },
@@ -166,7 +166,7 @@ impl InstructionIR {
                     Self::generate_control_qasm_strings(controls);
                 
                 qasm_instructions.push(QasmInstruction::GateDeclaration(format!(
-                    "{} t q[{}] // {} {} {}",
+                    "{} t q[{}]; // {} {} {}",
                     ctrl_qasm_str, index, "Phase T gate on qubit", index, ctrl_comment_str
                 )));
             },
@@ -176,7 +176,7 @@ impl InstructionIR {
                     Self::generate_control_qasm_strings(controls);
                 
                 qasm_instructions.push(QasmInstruction::GateDeclaration(format!(
-                    "{} sdg q[{}] // {} {} {}",
+                    "{} sdg q[{}]; // {} {} {}",
                     ctrl_qasm_str, index, "Phase S-dagger gate on qubit", index, ctrl_comment_str
                 )));
             },
@@ -186,7 +186,7 @@ impl InstructionIR {
                     Self::generate_control_qasm_strings(controls);
                 
                 qasm_instructions.push(QasmInstruction::GateDeclaration(format!(
-                    "{} tdg q[{}] // {} {} {}",
+                    "{} tdg q[{}]; // {} {} {}",
                     ctrl_qasm_str, index, "Phase T-dagger gate on qubit", index, ctrl_comment_str
                 )));
             },
@@ -197,7 +197,7 @@ impl InstructionIR {
                 
                 
                 qasm_instructions.push(QasmInstruction::GateDeclaration(format!(
-                    "{} p({}) q[{}] // {} {} {} {} {}",
+                    "{} p({}) q[{}]; // {} {} {} {} {}",
                     ctrl_qasm_str, angle, index,
                     "Phase gate with angle", angle, "on qubit", index, ctrl_comment_str
                 )));
@@ -208,7 +208,7 @@ impl InstructionIR {
                     Self::generate_control_qasm_strings(controls);
                 
                 qasm_instructions.push(QasmInstruction::GateDeclaration(format!(
-                    "{} rx({}) q[{}] // {} {} {} {} {}",
+                    "{} rx({}) q[{}]; // {} {} {} {} {}",
                     ctrl_qasm_str, angle, index,
                     "Rotate-X gate with angle", angle, "on qubit", index, ctrl_comment_str
                 )));
@@ -219,7 +219,7 @@ impl InstructionIR {
                     Self::generate_control_qasm_strings(controls);
                 
                 qasm_instructions.push(QasmInstruction::GateDeclaration(format!(
-                    "{} ry({}) q[{}] // {} {} {} {} {}",
+                    "{} ry({}) q[{}]; // {} {} {} {} {}",
                     ctrl_qasm_str, angle, index,
                     "Rotate-Y gate with angle", angle, "on qubit", index, ctrl_comment_str
                 )));
@@ -230,7 +230,7 @@ impl InstructionIR {
                     Self::generate_control_qasm_strings(controls);
                 
                 qasm_instructions.push(QasmInstruction::GateDeclaration(format!(
-                    "{} rz({}) q[{}] // {} {} {} {} {}",
+                    "{} rz({}) q[{}]; // {} {} {} {} {}",
                     ctrl_qasm_str, angle, index,
                     "Rotate-Z gate with angle", angle, "on qubit", index, ctrl_comment_str
                 )));
@@ -241,7 +241,7 @@ impl InstructionIR {
                     Self::generate_control_qasm_strings(controls);
                 
                 qasm_instructions.push(QasmInstruction::GateDeclaration(format!(
-                    "{} id q[{}] // {} {} {}",
+                    "{} id q[{}]; // {} {} {}",
                     ctrl_qasm_str, index, "Identity gate on qubit", index, ctrl_comment_str
                 )));
             },
@@ -251,7 +251,7 @@ impl InstructionIR {
                     Self::generate_control_qasm_strings(controls);
                 
                 qasm_instructions.push(QasmInstruction::GateDeclaration(format!(
-                    "{} swap q[{}], q[{}] // {} {} {} {} {}",
+                    "{} swap q[{}], q[{}]; // {} {} {} {} {}",
                     ctrl_qasm_str, index1, index2,
                     "SWAP gate between qubits", index1, "and", index2, ctrl_comment_str
                 )));
@@ -310,7 +310,7 @@ impl InstructionIR {
                 };
 
                 qasm_instructions.push(QasmInstruction::GateDeclaration(format!(
-                    "{} U({:.3},{:.3},{:.3}) q[{}] // {}",
+                    "{} U({:.3},{:.3},{:.3}) q[{}]; // {}",
                     ctrl_qasm_str, theta, phi, lambda, target_idx, full_comment
                 )));
             }
